@@ -778,8 +778,9 @@ impl Space for CharTable {
         let cw_upper: String = s.chars().flat_map(char::to_uppercase).collect();
         utf8("to_uppercase", u.as_bytes(), &[s.to_uppercase(), cw_upper], &mut bad);
         let lo = StringBuiltin::to_lowercase(&s, arena);
-        let cw_lower: String = s.chars().flat_map(char::to_lowercase).collect();
-        utf8("to_lowercase", lo.as_bytes(), &[s.to_lowercase(), cw_lower], &mut bad);
+        // the Unicode lowercase mapping of a *string* is context sensitive (Final_Sigma): the
+        // character-by-character mapping is not an accepted answer
+        utf8("to_lowercase", lo.as_bytes(), &[s.to_lowercase()], &mut bad);
         let n = StringBuiltin::to_number(&s);
         if unambiguous_decimal(&s) {
             let want: f64 = s.parse().unwrap();
